@@ -24,6 +24,11 @@ def scenarios(quick):
                             out.append(scenario(st, fns, base))
                             for ct in ((1, 3) if quick else (0, 1, 2, 3, 4)):
                                 out.append(scenario(st, fns, base + [env("CtxCancel", ct, 2)]))
+                            if w > 0:
+                                # the caller's deadline falls inside the wait for a permit, or on the instant the wait ends
+                                for x in (2, 3):
+                                    out.append(scenario(st, fns, base + [env("CtxDeadline", starts[x - 1] + 1, x)]))
+                                    out.append(scenario(st, fns, base + [env("CtxDeadline", starts[x - 1] + w, x)]))
                             for ct in ((2,) if quick else (1, 2, 3)):
                                 if len(st) == 2 and st[0]["k"] == "bh" or len(st) == 3:
                                     out.append(scenario(st, fns, base + [env("AsyncCancel", starts[2] + ct, 3)]))
@@ -58,8 +63,8 @@ def run(ctx):
     tscen.ASYNC_FIX = tscen.async_fix_in_code()
     tmc.model_check(ctx, "bh", model_scenarios(), ["MC_NoStuckThread", "MC_AllReturn", "MC_C06", "MC_Conservation"])
     scs = scenarios(ctx.tier == "quick")
-    if ctx.tier == "quick":      # several concurrent executions make validation expensive: every 6th scenario, offset by the seed
-        scs = scs[ctx.seed % 6::6] + scs[-6:]
+    if ctx.tier == "quick":      # several concurrent executions make validation expensive: every 9th scenario, offset by the seed
+        scs = scs[ctx.seed % 9::9] + scs[-6:]
     p_c07.run_family(ctx, "bh", scs, props=("C06",))
     # permits taken through the standalone API before the run, successive executions, every nesting of depth <= 2 around the bulkhead
     import seq
